@@ -195,21 +195,34 @@ def kill(p):
 
 
 def solve_all(queries, workdir, workers=None, progress=None, race=True):
+    """run all queries; every solver process of a portfolio takes one CPU slot, so single-solver queries do not leave
+    half of the machine idle when other queries race two or three solvers"""
     os.makedirs(workdir, exist_ok=True)
     for q in queries:
         if q.smt2 is None:
             q.render()
     if not queries:
         return []
-    width = max(len(q.portfolio) for q in queries)
-    workers = workers or max(1, (os.cpu_count() or 4) // width)
+    slots = workers or (os.cpu_count() or 4)
+    cond = threading.Condition()
+    free = [slots]
     results = [None] * len(queries)
 
     def job(i):
-        results[i] = run_one(queries[i], workdir, race=race)
+        need = min(len(queries[i].portfolio), slots)
+        with cond:
+            while free[0] < need:
+                cond.wait()
+            free[0] -= need
+        try:
+            results[i] = run_one(queries[i], workdir, race=race)
+        finally:
+            with cond:
+                free[0] += need
+                cond.notify_all()
         if progress:
             progress(i, results[i])
 
-    with ThreadPoolExecutor(max_workers=workers) as ex:
+    with ThreadPoolExecutor(max_workers=slots) as ex:
         list(ex.map(job, range(len(queries))))
     return results
